@@ -297,10 +297,9 @@ def pySumDecimals : Cls → Res Unit
   | list_infs => raise .decimal_InvalidOperation
   | _ => pure ()
 
-/-- `message_text % vars` with every `%(name)s` supplied -/
-def pyPercentFormat : Cls → Res Unit
-  | str_pct => raise .ValueError
-  | str_fmt_d => raise .KeyError
+/-- `re_literal_percent.sub("%%", text) % vars` with every `%(name)s` supplied: after the escaping of every other
+percent sign nothing is left that `%` could reject -/
+def pyPercentFormatEscaped : Cls → Res Unit
   | _ => pure ()
 
 end LiquidVerif.C02
